@@ -2,6 +2,7 @@ import CnfgenModel.Driver.Util
 import CnfgenModel.Cli.Validate
 import CnfgenModel.Cli.Chain
 import CnfgenModel.Cli.Phases
+import CnfgenModel.Cli.Msg
 namespace Cnfgen.Driver.Cli
 open Cnfgen Cnfgen.Driver Cnfgen.Cli
 
@@ -26,6 +27,10 @@ def handle (opname : String) (a : Args) : Option String :=
       let c : Cmd := { seed := if has then some s else none, parseDraws := 1, buildDraws := 1 }
       let r := firstEvents current c
       pure (ok (toString (if r.1 then 1 else 0) ++ " " ++ toString r.2))) a
+  | "errlines" => run (do
+      let pre ← str; let prog ← str; let hasUsage ← bool; let usage ← listOf str; let message ← listOf str
+      let ls := errorMsgLines pre (cliErrorLines message (if hasUsage then some usage else none) prog)
+      pure (ok (toString ls.length ++ ls.foldl (fun s l => s ++ " | " ++ fmtInts (intsOfStr l)) ""))) a
   | "phase3" => run (do
       let s ← int; let has ← bool
       let c : Cmd := { seed := if has then some s else none, parseDraws := 1, buildDraws := 1 }
